@@ -45,13 +45,6 @@ Proof.
   congruence.
 Qed.
 
-Lemma lookup_notin : forall n kv, ~ In n (keys kv) -> lookup n kv = None.
-Proof.
-  intros n kv. induction kv as [|[k j] r IH]; intros H; [reflexivity|].
-  simpl in *. rewrite IH by tauto.
-  destruct (String.eqb k n) eqn:E; [|reflexivity]. apply String.eqb_eq in E. tauto.
-Qed.
-
 Lemma lookup_app : forall n a b,
   lookup n (a ++ b) = match lookup n b with Some x => Some x | None => lookup n a end.
 Proof.
@@ -68,6 +61,23 @@ Proof.
   destruct ft; try (destruct (om && is_empty x); simpl in H;
                     [right; eapply IH; exact H | destruct H as [H|H]; [left; exact H|right; eapply IH; exact H]]).
   eapply IH; exact H.
+Qed.
+
+
+Lemma enc_fields_keys_nodup : forall mo fs vs, str_nodup (names fs) = true -> NoDup (keys (enc_fields mo fs vs)).
+Proof.
+  intros mo fs. induction fs as [|[g m om ft] fr IH]; intros vs H; [destruct vs; constructor|].
+  destruct vs as [|x vr]; [constructor|].
+  destruct (match ft with TSkip => true | _ => false end) eqn:Eskip.
+  - destruct ft; try discriminate Eskip. simpl in H |- *. apply IH. exact H.
+  - assert (Hnames : names (Field g m om ft :: fr) = m :: names fr) by (destruct ft; try reflexivity; discriminate Eskip).
+    rewrite Hnames in H. simpl in H. rewrite andb_true_iff, negb_true_iff in H. destruct H as [Hm Hr].
+    apply existsb_str_false in Hm.
+    assert (Henc : enc_fields mo (Field g m om ft :: fr) (x :: vr) =
+                   if om && is_empty x then enc_fields mo fr vr else (m, enc mo ft x) :: enc_fields mo fr vr)
+      by (destruct ft; try reflexivity; discriminate Eskip).
+    rewrite Henc. destruct (om && is_empty x); [apply IH; exact Hr|].
+    simpl. constructor; [|apply IH; exact Hr]. intro HI. apply Hm. eapply keys_enc_fields. exact HI.
 Qed.
 
 (* an empty well-formed value is the zero value of its type *)
@@ -328,7 +338,8 @@ Proof.
     destruct (fields_rt fs (IH Hf) Hnd vs [] Hw) as [vs' [E1 E2]]; [intros n _ []|].
     exists (VStruct vs'). split.
     + rewrite enc_struct, dec_struct.
-      rewrite dec_fields_exact by (intros k Hk; eapply keys_enc_fields; exact Hk).
+      rewrite dec_fields_exact;
+        [|intros k Hk; eapply keys_enc_fields; exact Hk|apply enc_fields_keys_nodup; exact Hnd].
       simpl in E1. rewrite E1. reflexivity.
     + rewrite !canon_struct, E2. reflexivity.
   - (* Q [] *) intros _. constructor.
